@@ -20,7 +20,7 @@ func (c22) ID() string { return "C22" }
 
 func (c22) Budget(tier string) int {
 	if tier == "thorough" {
-		return 20000
+		return 300000
 	}
 	return 4000
 }
